@@ -253,3 +253,41 @@ def r7(cx):
                  b.where(bad[0]) if bad else b.where(),
                  "`%s` can return Ok without writing `second_level` and without having looked at it: after `mark_exhausted` (or a walker) dropped the block cursor, "
                  "a re-seek into the same block finds `second_level == None`, skips the block and returns a later entry or 'not found' for a stored key" % b.id)
+
+
+@rule("C13", "C13.R8", "table writer: a data block is cut only when it holds an entry (every block size)")
+def r8(cx):
+    """`write_data_block` takes the block's last key to build the index separator.  `finish` cuts the last block only
+    `if entries() > 0`; `add` cuts when `size_estimate() > block_size` -- and an EMPTY block already has a size (its
+    restart array), so with a block size below that the very first `add` cuts an empty block: the separator is computed
+    from an empty last key and the writer panics (or writes an index entry that covers nothing).  Sibling cross-check:
+    every call of the block-cutting routine is control-dependent on the block holding an entry."""
+    f = cx.f
+    from ..core import bool_call_condition
+    n = 0
+    for b in f.scan_bodies():
+        if (b.self_ty or "").split("<")[0].split("::")[-1] != "TableWriter" or b.kind != "method":
+            continue
+        ws = [c for c in b.calls if c.bb in b.live and c.primary.split("::")[-1] == "write_data_block"]
+        if not ws:
+            continue
+        cl_entries = [cb for cb in f.closures_of(b) if any(x.primary.split("::")[-1] == "entries" for x in cb.calls)]
+        for w in ws:
+            n += 1
+            ok = False
+            for cm in comparisons(b):
+                if cm.condition_to_reach(w.bb) is None:
+                    continue
+                for op in (cm.lhs, cm.rhs):
+                    if any(x.primary.split("::")[-1] in ("entries", "is_empty") for x in origin_of_operand(b, op, through_calls="all").calls):
+                        ok = True
+            if not ok and cl_entries:
+                for c2 in b.calls:
+                    if c2.bb in b.live and len(c2.dest) == 1 and b.local_ty(c2.dest[0]) == "bool" and any(a[0] in ("c", "m") and "closure" in b.local_ty(a[1][0]) for a in c2.args):
+                        if bool_call_condition(b, c2, w.bb) is not None:
+                            ok = True
+            cx.check(ok, "`%s`: the block is cut only if it holds an entry" % b.id, "empty-block-cut|%s" % b.name, w.where(),
+                     "`%s` cuts the current data block on its size estimate alone: an empty block already has a non-zero estimate, so with a small `block_size` the first "
+                     "entry makes the writer cut an EMPTY block and build a separator from an empty last key (panic in the flush / compaction task), while `finish` does "
+                     "test `entries() > 0`" % b.id)
+    cx.floor("calls of TableWriter::write_data_block", n, 2)
